@@ -2,7 +2,7 @@ import TantivyModel.Proofs.Columnar.Mapping
 import TantivyModel.Proofs.Columnar.Range
 import TantivyModel.Proofs.Columnar.Header
 import TantivyModel.Proofs.Columnar.Stack
-import TantivyModel.Proofs.Columnar.OptionalIndex
+import TantivyModel.Proofs.Columnar.OptRankSelect
 /-!
 # C08 — Fast fields return exactly the values that were indexed
 
@@ -125,29 +125,55 @@ theorem C08_codec_choice_irrelevant (l : Line) (vals : List Nat) (hv : ∀ v ∈
 
 /-! ## optional index -/
 
-/- Full statement still open (kept visible): for every strictly increasing `rows` below `numRows`,
-   `optOpen (optEnc rows numRows) = some o` with `o.rank d = rankSpec rows d`,
-   `o.rankIfExists d = if d ∈ rows then some (rankSpec rows d) else none`, `o.select k = rows[k]`,
-   through the whole byte layout incl. dense blocks. Proved: the block decomposition for every
-   block size, select∘rank = id on the abstract set, and the sparse block on its real byte layout
-   (binary search); dense blocks and the metadata parsing are covered by the byte-exact
-   correspondence run only. -/
-/-- `rank` through 65 536-row blocks (block offset + in-block rank) counts the members below, for
-every set of rows and every block size; on a strictly increasing row list `select (rank r) = r`
-for members and the k-th member has rank k; a sparse block (sorted u16 LE, binary search) answers
-`rank`, `rank_if_exists`, `select` exactly as the abstract set does. -/
-theorem C08_optional_rank_select_partial :
-    (∀ (E : Nat), 0 < E → ∀ (rows : List Nat) (r : Nat), rankBlocks E rows r = rankSpec rows r) ∧
+/-- the optional index on its real byte layout (VInt row count; per 65 536-row block either sorted
+u16 LE or 1024 mini blocks of 64-bit bitvec + u16 rank offset; block metadata; block count): for
+every strictly increasing set of rows below `numRows`, `open (serialize rows)` succeeds and
+`rank d` = number of members below `d` (every `d`, also beyond the last row), `rank_if_exists d` =
+`some (rank d)` exactly on members, `select k` = the k-th member — with `find_block` started at 0
+(`OptionalIndex::select`, used by `MultiValueIndex::select_batch_in_place`) or at any cursor block
+not beyond the answer (`OptionalIndexSelectCursor`) — and `select (rank r) = r` on members.
+(`numRows ≤ 65535·65536`: the number of non-empty blocks must fit the trailing u16.) -/
+theorem C08_optional_rank_select (rows : List Nat) (numRows : Nat)
+    (hs : rows.Pairwise (· < ·)) (hb : ∀ r ∈ rows, r < numRows) (hsmall : numRows ≤ 65535 * 65536) :
+    ∃ o, optOpen (optEnc rows numRows) = some o ∧ o.numDocs = numRows ∧ o.numNonNull = rows.length ∧
+      (∀ d, o.rank d = some (rankSpec rows d)) ∧
+      (∀ d, d < numRows → o.rankIfExists d = if d ∈ rows then some (rankSpec rows d) else none) ∧
+      (∀ k (hk : k < rows.length), o.select k = some rows[k] ∧
+          ∀ start, start ≤ rows[k] / EPB → o.selectFrom start k = some rows[k]) ∧
+      (∀ r ∈ rows, (o.rank r).bind o.select = some r) := by
+  have ok : OptOk rows numRows := ⟨hs, hb, hsmall⟩
+  refine ⟨openedOf rows numRows, optOpen_enc rows numRows ok, rfl, rfl, opt_rank rows numRows ok,
+    opt_rankIfExists rows numRows ok,
+    fun k hk => ⟨opt_select rows numRows ok k hk, fun start h => opt_selectFrom rows numRows ok k hk start h⟩, ?_⟩
+  intro r hr
+  obtain ⟨k, hk, rfl⟩ := List.getElem_of_mem hr
+  rw [opt_rank rows numRows ok, rankSpec_getElem rows hs k hk]
+  exact opt_select rows numRows ok k hk
+
+/-- the abstract layer used above, for every block size: `rank` through blocks (block offset +
+in-block rank) counts the members below; on a strictly increasing list `select (rank r) = r` and
+the k-th member has rank k; a sparse block alone (binary search on sorted u16 LE) and a dense
+block alone (bitvec + rank offsets) answer like the abstract set. -/
+theorem C08_optional_blocks (E : Nat) (hE : 0 < E) :
+    (∀ (rows : List Nat) (r : Nat), rankBlocks E rows r = rankSpec rows r) ∧
     (∀ (rows : List Nat), rows.Pairwise (· < ·) →
         (∀ r ∈ rows, rows[rankSpec rows r]? = some r) ∧
         (∀ k (hk : k < rows.length), rankSpec rows rows[k] = k)) ∧
-    (∀ (els : List Nat), els.Pairwise (· < ·) → (∀ e ∈ els, e < 65536) → ∀ t,
-        sparseRank (sparseEnc els) t = rankSpec els t ∧
+    (∀ (els : List Nat), els.Pairwise (· < ·) → (∀ e ∈ els, e < 65536) → ∀ t, t < 65536 →
+        sparseRank (sparseEnc els) t = rankSpec els t ∧ denseRank (denseEnc els) t = rankSpec els t ∧
         sparseRankIfExists (sparseEnc els) t = (if t ∈ els then some (rankSpec els t) else none) ∧
-        (∀ k (hk : k < els.length), sparseSelect (sparseEnc els) k = els[k])) :=
-  ⟨rankBlocks_eq, fun rows hs => ⟨select_rank rows hs, rankSpec_getElem rows hs⟩,
-   fun els hs h t => sparse_spec els hs h t⟩
+        denseRankIfExists (denseEnc els) t = (if t ∈ els then some (rankSpec els t) else none) ∧
+        (∀ k (hk : k < els.length), sparseSelect (sparseEnc els) k = els[k]
+            ∧ denseSelect (denseEnc els) k = some els[k])) :=
+  ⟨rankBlocks_eq E hE, fun rows hs => ⟨select_rank rows hs, rankSpec_getElem rows hs⟩,
+   fun els hs h t ht => ⟨(sparse_spec els hs h t).1, dense_rank els hs t ht, (sparse_spec els hs h t).2.1,
+     dense_rankIfExists els hs t ht,
+     fun k hk => ⟨(sparse_spec els hs h t).2.2 k hk, dense_select els hs h k hk⟩⟩⟩
 
+example : (optOpen (optEnc [1, 5, 9] 10)).bind (·.rank 6) = some 2
+    ∧ (optOpen (optEnc [1, 5, 9] 10)).bind (·.select 2) = some 9
+    ∧ (optOpen (optEnc [1, 5, 9] 10)).bind (·.rankIfExists 5) = some 1
+    ∧ (optOpen (optEnc [1, 5, 9] 10)).bind (·.rankIfExists 6) = none := by decide
 example : rankBlocks 4 [1, 5, 6, 11] 6 = 2 ∧ sparseRank (sparseEnc [1, 5, 6, 700]) 6 = 2
     ∧ sparseRankIfExists (sparseEnc [1, 5, 6, 700]) 7 = none
     ∧ sparseSelect (sparseEnc [1, 5, 6, 700]) 3 = 700 := by decide
